@@ -136,7 +136,7 @@ class Evaluator:
             raise Unknown(f"abstract object {v!r} has no attribute {n.attr}")
         if isinstance(v, ClassRef) and "__classattr__" in self.hooks:
             return self.hooks["__classattr__"](v, n.attr)
-        if type(v).__name__ == "Arr" and n.attr in ("shape", "ndim", "tolist", "copy", "astype", "sum", "cumsum", "max", "min"):
+        if type(v).__name__ == "Arr" and n.attr in ("shape", "ndim", "tolist", "copy", "astype", "sum", "cumsum", "max", "min", "all", "any"):
             return getattr(v, n.attr)
         for t, names in _SAFE_METHODS.items():
             if isinstance(v, t) and n.attr in names:
@@ -161,6 +161,15 @@ class Evaluator:
 
     def _UnaryOp(self, n, env):
         v = self.ev(n.operand, env)
+        if type(v).__name__ == "Arr":
+            if isinstance(n.op, ast.Invert):
+                return ~v
+            if isinstance(n.op, ast.Not):
+                if len(v.shape) and v.shape != (1,) * len(v.shape):
+                    raise EvalRaised("ValueError", "truth value of an array with more than one element is ambiguous")
+                return not v.all()
+        if isinstance(n.op, ast.Invert):
+            return ~v
         if isinstance(n.op, ast.Not):
             return not v
         if isinstance(n.op, ast.USub):
@@ -197,6 +206,10 @@ class Evaluator:
                      ast.In: lambda: left in right, ast.NotIn: lambda: left not in right}[t]()
             except Exception as e:
                 raise Unknown(f"comparison {ast.unparse(n)[:60]}: {e}")
+            if type(r).__name__ == "Arr":
+                if len(n.ops) == 1:
+                    return r  # elementwise comparison of an abstract array
+                raise EvalRaised("ValueError", "truth value of an array in a chained comparison")
             if not r:
                 return False
             left = right
